@@ -1,7 +1,7 @@
 (** Consequences of [Inv]: chain lemmas (L1-L3 of the proof plan), the loop over the
     middle gaps, gap list surgery, and the re-insert lemma. *)
 From Coq Require Import List ZArith Lia Bool Permutation.
-From V Require Import Gen.Params Lib.Hex FrameSorter.Model FrameSorter.InvCheck FrameSorter.ProofsBase
+From V Require Import Gen.Params Lib.Hex FrameSorter.Model FrameSorter.InvCheck FrameSorter.Spec FrameSorter.ProofsBase
   FrameSorter.ProofsLoops FrameSorter.ProofsFind FrameSorter.ProofsPop.
 Import ListNotations.
 Open Scope Z_scope.
